@@ -25,6 +25,9 @@ type Clause struct {
 	Line   int
 	Index  int // ordinal among clauses of the same kind in this function
 	Always bool
+	// Assumed: a postcondition the callers may use but the body is not checked against (what the
+	// unmodelled part of the body -- reflection -- is taken to do); listed with the assumptions
+	Assumed bool
 }
 
 type FuncSpec struct {
@@ -59,12 +62,13 @@ type GhostField struct {
 }
 
 type SpecFun struct {
-	Name   string
-	Params []QVar
-	Result string
-	Body   Expr
-	Text   string
-	Rec    bool
+	Name     string
+	Params   []QVar
+	Result   string
+	Body     Expr
+	Text     string
+	Rec      bool
+	Abstract bool
 }
 
 type Lemma struct {
@@ -114,13 +118,13 @@ func newSpecFile() *SpecFile {
 	}
 }
 
-var clauseHead = regexp.MustCompile(`^(requires|ensures_on_panic|ensures|maintains|modifies|invariant|iteration|decreases|panics_iff|assert|writes_own_objects|writes_loop_objects)(\[[^\]]*\])?\s*(.*)$`)
+var clauseHead = regexp.MustCompile(`^(requires|ensures_on_panic|ensures|assumes|maintains|modifies|invariant|iteration|decreases|panics_iff|assert|always|writes_own_objects|writes_loop_objects)(\[[^\]]*\])?\s*(.*)$`)
 
 var knownKeywords = map[string]bool{
 	"func": true, "iface": true, "ghost": true, "chaninv": true, "smtfun": true, "spec": true, "axiom": true, "lemma": true,
 	"requires": true, "ensures": true, "maintains": true, "modifies": true, "pure": true, "pure_const": true, "inline": true, "let": true, "loop": true,
 	"panics_iff": true, "ensures_on_panic": true, "replay": true, "nopanic": true, "synchronous": true, "params": true, "results": true,
-	"trusted": true, "floor": true, "callee": true, "use": true, "extern": true, "decreases": true, "recovers": true, "may_panic": true, "nooverflow": true, "rangefunc": true, "immutable": true,
+	"trusted": true, "floor": true, "callee": true, "use": true, "extern": true, "decreases": true, "recovers": true, "may_panic": true, "nooverflow": true, "rangefunc": true, "immutable": true, "always": true, "assumes": true,
 }
 
 func parsePropsLabel(s string) (props []string, label string) {
@@ -246,7 +250,15 @@ func (sf *SpecFile) load(path string, extern bool) error {
 			tail := strings.TrimSpace(r[cp+1:])
 			eq := strings.Index(tail, "=")
 			if eq < 0 {
-				return fail(l, "spec fun needs '= body'")
+				// no body: an abstract (uninterpreted) function of its arguments; what is known about it
+				// comes from axioms, each of which is listed with the assumptions
+				if tail == "" {
+					return fail(l, "spec fun needs a result type")
+				}
+				sfn.Result = tail
+				sfn.Abstract = true
+				sf.SpecFuns[sfn.Name] = sfn
+				continue
 			}
 			sfn.Result = strings.TrimSpace(tail[:eq])
 			body, err := parseExpr(tail[eq+1:])
@@ -474,6 +486,27 @@ func (sf *SpecFile) load(path string, extern bool) error {
 						return fail(l, "%v", err)
 					}
 					c.Expr = e
+				}
+				if c.Kind == "assumes" {
+					c.Kind = "ensures"
+					c.Assumed = true
+					counts["ensures"]++
+					c.Index = counts["ensures"]
+					cur.Clauses = append(cur.Clauses, c)
+					continue
+				}
+				if c.Kind == "always" {
+					// a postcondition that speaks only of the result: proved like any other, and -- being
+					// independent of the state -- true of every value the function ever returns
+					post := *c
+					post.Kind = "ensures"
+					counts["ensures"]++
+					post.Index = counts["ensures"]
+					if post.Label == "" {
+						post.Label = fmt.Sprintf("always%d", c.Index)
+					}
+					cur.Clauses = append(cur.Clauses, &post, c)
+					continue
 				}
 				if c.Kind == "maintains" {
 					// an invariant of the function: assumed on entry, proved on exit
